@@ -12,7 +12,8 @@ LEVEL_TEXT = ("proof + fault enumeration: Coq theorems over the disk-level model
               "K-C11-evict-then-append: pre, pre minus evicted messages, or post). The model is tied to the code by "
               "enumerating every crash point of sampled scenarios on the real store (panic at the k-th verifhook point, "
               "truncation of the file being written at every length <= 512) and comparing site sequence and recovered state. Also proved and "
-              "sampled: VisitMailboxes returns no error while another operation runs, for every schedule (fix 0012).")
+              "sampled: VisitMailboxes returns no error while ONE other operation runs, for every interleaving of the walk's directory reads "
+              "with whole file-system steps of that operation (fix 0012; states inside a step and several concurrent operations: C09).")
 LEVEL_NOTE = ("The theorems are about Model/FileDisk.v, a hand-written model of pkg/storage/file (fstore.go, mbox.go, fmessage.go); "
               "encoding/gob is a section variable with the round-trip hypothesis only; the file system is modelled as a path map "
               "with atomic create/rename/unlink/rmdir (POSIX), a process kill (no power loss: written data survives without fsync). "
@@ -28,7 +29,9 @@ LEVEL_NOTE = ("The theorems are about Model/FileDisk.v, a hand-written model of 
               "pairs (evidence: crash_point_coverage). Non-atomic calls additionally crash INSIDE: content writes (any bytes / every truncation "
               "<= 512), RemoveAll (subsets), MkdirAll (outer part of the chain). NOT crash points: the read-only calls (os.Stat, os.Open, "
               "Readdirnames) and the four os.Remove(raw) clean-ups of AddMessage that run only after an I/O error — I/O errors (disk full, EACCES) "
-              "are not modelled; concurrency is C09's. The ordered map of crash_atomic_* / crash_reopen_history is StoreSpec's (C10: "
+              "are not modelled; concurrency is C09's. A killed FIRST delivery to a mailbox leaves an empty mailbox directory (MkdirAll done, no index yet): "
+              "by-name listing shows no mail and VisitMailboxes yields it as one extra empty list (the retention scanner ignores it; the next delivery "
+              "or purge reuses / removes it) — the model's visit and the driver agree on this. The ordered map of crash_atomic_* / crash_reopen_history is StoreSpec's (C10: "
               "filedisk_refines_storespec, crash_is_storespec_state: every crash state represents a StoreSpec state).")
 TECHNIQUE = "machine-checked proof in Coq + model/code correspondence check"
 DESIGN_REF = "DESIGN.md §4 C11"
@@ -53,7 +56,8 @@ TRUSTED = ["encoding/gob round trip: dec (enc i) = Some i (section hypothesis; n
            "runner-side instance of the codec (Model/FileDiskCodec.v, round trip proved) and SHA-1 values passed in by the driver"]
 ASSUMPTIONS = ["no I/O errors during the operation other than the crash itself",
                "one operation at a time per mailbox (the per-mailbox lock; interleavings are C09)"]
-NOT_PROVED = []
+NOT_PROVED = ["crash_atomic_stmt (Proofs/FileDiskWitness.v): 'the interrupted operation has happened completely or not at all' for EVERY operation is FALSE for a delivery that evicts for the mailbox cap (crash_atomic_stmt_false, crash_atomic_capped_refuted, open finding K-C11-evict-then-append); proved instead: crash_atomic_partial (no eviction) and crash_atomic_capped (old minus 1..evictions oldest, or new)",
+              "untouched_intact concludes membership (same entry, same content); the ORDER of the untouched messages follows from crash_atomic_capped (the crash state is a suffix of the old listing or the new listing)"]
 
 
 _IDX = ["index.create", "index.write", "index.flush", "index.close", "index.rename"]
